@@ -86,12 +86,13 @@ claim("C12",
            "against a recursive contract (ghost leafid/final values, decreases clause, every Tree._add_node slot filled once), digitize2tree's prediction equals "
            "numpy.digitize(x, bins, right=True); the descending case by the value-rewriting loop invariant; right=False refused; tree_leave_index lists exactly "
            "the leaves in increasing order (loop invariant with a ghost membership predicate); tree_node_range (with tree_node_parents and "
-           "tree_find_path_to_root executed): for 5 tree shapes (up to 7 nodes, depth 3) x every leaf and ANY numbering of the nodes (best-first or "
+           "tree_find_path_to_root executed): predict_leaves(model, X)[r] is the leaf the tree routes row r to (any number of nodes and rows); for 5 tree shapes (up to 7 nodes, depth 3) x every leaf and ANY numbering of the nodes (best-first or "
            "depth-first storage), ANY split features, thresholds and point, a point is in the returned box iff the tree routes it to the leaf. Bounded "
            "(compiled code): all monotone bins of length<=4 over a float32-exact grid, fitted trees (depth-first and best-first): predict_leaves=apply, "
            "tree_node_range = box of routed points.",
       note="Over the reals (A1): the float32 cast inside scikit-learn is a recorded known finding. Assumed contract of Tree._add_node/predict. "
-           "tree_node_range is bounded in the shape of the tree (not in its numbering); predict_leaves only bounded.",
+           "tree_node_range is bounded in the shape of the tree (not in its numbering); predict_leaves is proved for any tree and batch given "
+           "scikit-learn's decision_path / apply consistency (assumed, exercised by the bounded stand-in).",
       technique="deductive verification: recursive contract + loop invariants over ghost tree semantics, z3")
 claim("C11",
       text="Per configuration, complete in the input: for each of 128 configurations (n_features<=4, degree<=4, interaction_only, include_bias, kind poly / "
@@ -217,7 +218,7 @@ claim("C09",
            "max_depth/min_samples_leaf.",
       note="Reading the extracted text as Python assumes mathematical double / integer arithmetic and successful allocation; every index is checked "
            "although the C code disables bounds checks. 'mselin' (LAPACK through raw pointers) and the scikit-learn tree builder are bounded only; "
-           "predict_leaves / _fit_reglin are assumed on the Python side. Known finding: the fast criterion's prefix sums are in the init order, which the "
+           "_fit_reglin is assumed on the Python side, predict_leaves is proved (position of the row's own leaf in leaves_index_). Known finding: the fast criterion's prefix sums are in the init order, which the "
            "splitter then re-sorts (the proved invariant is relative to the order given to init).",
       technique="deductive verification of mechanically extracted Cython text (loop invariants over ghost range sums, Lean-checked lemma schemas, z3) and of "
                 "the Python side; 'mselin' by bounded enumeration")
